@@ -662,13 +662,11 @@ def _run(case, drv):
     for i, a in enumerate(srcs):
         k = target_keys(i, a)
         infer = tgt == "sm" or (src == "bms" and tgt in ("osu", "qua"))
-        if a["facts"]["keys"] is None and not infer:
-            continue
-        if a["facts"]["keys"] is None:
+        if a["facts"]["keys"] is None and infer:
             unsupported.append("a chart without notes (the converter infers the key count from the notes)")
         elif k is None or (tgt == "qua" and k not in QUA_KEYS) or (tgt == "sm" and k not in SM_KEYS) or \
                 (tgt == "bms" and (k + shift > BMS_LANES[layout])) or (tgt == "osu" and not (1 <= k <= 18)) or \
-                (tgt in ("osu", "qua") and a["facts"]["keys"] > k):
+                (tgt in ("osu", "qua") and (a["facts"]["keys"] or 0) > k):
             unsupported.append(f"key count {k} not supported by {tgt}")
         if src == "qua" and tgt != "sm" and info["mode"] not in QUA_KEYS.values():
             unsupported.append("Quaver mode unknown")
@@ -768,7 +766,6 @@ def _run(case, drv):
     detail = {}
     ok = True
     agree = True
-    valid_fail_only_ks = False
     n_obj = sum(a["facts"]["n"] for a in srcs)
     if err is not None and tgt == "bms" and err.startswith("convert: UnicodeEncodeError"):
         # the codecs are parameters of the converter model (C08): a text that shift_jis cannot encode is outside the domain
@@ -809,11 +806,8 @@ def _run(case, drv):
                     continue
                 b = T["charts"][0]
                 if not T["valid"]:
-                    if tgt == "qua" and T["info"].get("only_keysounds") and T["info"].get("allowed_without_keysounds"):
-                        valid_fail_only_ks = True
-                    else:
-                        ok = False
-                        why.append(f"chart {i}: written file not valid: {T['why']}")
+                    ok = False
+                    why.append(f"chart {i}: written file not valid: {T['why']}")
                 if tgt == "osu" and T["info"]["keys"] != target_keys(i, a):
                     ok = False
                     why.append(f"chart {i}: CircleSize {T['info']['keys']} written for a {target_keys(i, a)}-key chart")
@@ -830,6 +824,8 @@ def _run(case, drv):
                     tags.append("objects-only")
                 if v.get("crowded"):
                     hyp.append("two cells of one column closer than the target's resolution")
+                if v.get("tempo_crowded"):
+                    hyp.append("two tempo points closer than the target's resolution")
                 if not v["close"]:
                     ok = False
                     why.append(f"chart {i}: timeline differs (hits {v['hits']}, holds {v['holds']}, tempo {v['bpms']}; "
@@ -841,12 +837,7 @@ def _run(case, drv):
                     tags.append("exact")
     dom = not kf_pred and not hyp
     kf = None
-    if ok and valid_fail_only_ks:
-        # the timeline is carried, the only defect is `KeySounds: .nan` on converted notes: open finding D08
-        ok = False
-        kf = "D08"
-        why.append("written .qua has KeySounds: .nan (D08)")
-    elif not ok and kf_pred:
+    if not ok and kf_pred:
         kf = kf_pred[0]
     if not dom or kf:
         agree = True if not dom else agree
@@ -862,5 +853,5 @@ def _run(case, drv):
         # outside the writers' domains (C03 / C05 / the property's own quantifier): nothing is demanded
         return dict(claim=claim, ok=True, agree=True, dom=False, kf=None, tags=tags + ["not-judged"], nontrivial=False, detail={})
     nontrivial = n_obj >= 3 and (any(a["holds"] for a in srcs) or any(a["facts"]["n_bpms"] >= 2 for a in srcs))
-    return dict(claim=claim, ok=ok, agree=agree, dom=bool(dom) and not valid_fail_only_ks, kf=kf, tags=tags, nontrivial=bool(nontrivial),
+    return dict(claim=claim, ok=ok, agree=agree, dom=bool(dom), kf=kf, tags=tags, nontrivial=bool(nontrivial),
                 detail=detail)
